@@ -274,7 +274,8 @@ def calendar_cases(rng, n):
 
     out = []
     starts = [(1999, 11), (1999, 12), (2000, 1), (2000, 2), (2099, 12), (2100, 1), (2100, 2), (2023, 12), (2024, 1),
-              (2024, 2), (2019, 12), (2020, 2), (2022, 12), (2023, 2), (2003, 12), (2004, 2), (1996, 1)]
+              (2024, 2), (2019, 12), (2020, 2), (2022, 12), (2023, 2), (2003, 12), (2004, 2), (1996, 1),
+              (1899, 12), (1900, 1), (1968, 11), (1969, 12), (2249, 10), (2023, 3), (2023, 8)]
     for i in range(n):
         y0, m0 = starts[i % len(starts)]
         res = rng.choice([1, 1, 1, 3])
@@ -434,28 +435,327 @@ def correspondence(ctx, cases, desc_name):
 
 
 # ------------------------------------------------------------------------------ Altair monitor
-def vega_monitor(ctx, t1, t2):
-    """NOT a decision procedure: calls a few plot methods and counts charts per slice."""
-    res = {}
-    for name in ("plot_right_edge", "plot_data_completeness", "plot_heatmap", "plot_growth_curve", "plot_mountain"):
-        for label, t in (("1-slice", t1), ("2-slice", t2)):
-            key = f"{name}/{label}"
+N_SAMPLES = 6
+UNSUPPORTED_AT_BASELINE = set()   # plot_drip / plot_hose were repaired in /repo (fix F25) and are required like the rest
+
+
+def plot_triangle(n_slices, mixed, n_samples=N_SAMPLES, n=3):
+    """mixed: observed upper-left cells (scalars) + predicted lower-right cells (samples), the usual shape of a
+    prediction triangle; otherwise every cell sample valued (upper-left only)"""
+    from bermuda import Cell, Metadata, Triangle
+
+    rng = np.random.default_rng(7)
+    cells = []
+    for s_ in range(n_slices):
+        meta = Metadata(details={"id": s_ + 1})
+        for i in range(n):
+            y = 2015 + i
+            for j in range(n if mixed else n - i):
+                base = 1000.0 * (j + 1) * (1 + 0.1 * s_)
+                obs = mixed and (i + j) < n
+
+                def f(m, sd):
+                    return float(m) if obs else rng.normal(m, sd, n_samples)
+
+                cells.append(Cell(period_start=D(y, 1, 1), period_end=D(y, 12, 31), evaluation_date=D(y + j, 12, 31),
+                                  values={"paid_loss": f(base, 50.0), "reported_loss": f(1.2 * base, 50.0),
+                                          "earned_premium": 10000.0, "reported_claims": f(100 * (j + 1), 3.0),
+                                          "open_claims": f(50 / (j + 1), 2.0)}, metadata=meta))
+    return Triangle(cells)
+
+
+def plot_options(n_slices):
+    """every plot method with its default and with each non-default keyword option, boundary values included
+    (n_lines = num_samples, num_samples - 1, 1)"""
+    N = N_SAMPLES
+    two = ["Paid Loss Ratio", "Reported Loss Ratio"]
+    titles = [f"s{i}" for i in range(n_slices)]
+    return {
+        "plot_right_edge": [{}, {"uncertainty_type": "segments"}, {"uncertainty": False}, {"hide_samples": True},
+                            {"ncols": 1}, {"facet_titles": titles}],
+        "plot_data_completeness": [{}, {"hide_samples": True}, {"ncols": 1}],
+        "plot_heatmap": [{}, {"show_values": False}, {"hide_samples": True}, {"metric_spec": two}, {"metric_spec": "Paid Loss"}],
+        "plot_atas": [{}, {"metric_spec": ["Paid ATA", "Reported ATA"]}, {"hide_samples": True}],
+        "plot_growth_curve": [{}, {"uncertainty_type": "ribbon"}, {"uncertainty_type": "segments"},
+                              {"uncertainty_type": "spaghetti", "n_lines": N}, {"uncertainty_type": "spaghetti", "n_lines": N - 1},
+                              {"uncertainty_type": "spaghetti", "n_lines": 1}, {"uncertainty_type": "spaghetti", "n_lines": N, "seed": 3},
+                              {"uncertainty": False}, {"hide_samples": True}, {"metric_spec": two}],
+        "plot_sunset": [{}, {"uncertainty_type": "segments"}, {"uncertainty": False}, {"hide_samples": True}],
+        "plot_mountain": [{}, {"uncertainty_type": "segments"}, {"uncertainty": False}, {"hide_samples": True},
+                          {"highlight_ultimates": False}],
+        "plot_ballistic": [{}, {"uncertainty": False}, {"hide_samples": True}, {"show_points": False}],
+        "plot_broom": [{}, {"rule": None}, {"uncertainty": False}, {"hide_samples": True}, {"show_points": False}],
+        "plot_histogram": [{}, {"right_edge": False}, {"metric_spec": ["Paid Loss", "Reported Loss"]}, {"hide_samples": True}],
+        "plot_drip": [{}, {"uncertainty": False}, {"hide_samples": True}, {"show_points": False}],
+        "plot_hose": [{}, {"uncertainty": False}, {"hide_samples": True}, {"show_points": False}],
+    }
+
+
+def n_charts(spec):
+    for key in ("concat", "hconcat", "vconcat"):
+        if key in spec:
+            return len(spec[key])
+    return 1
+
+
+def plot_call(t, name, kw):
+    """Returns None or a failure description: the chart must serialise to a schema-valid Vega-Lite spec with one
+    chart per slice (and per metric)."""
+    import bermuda.plot as bp
+
+    try:
+        with warnings.catch_warnings():
+            warnings.simplefilter("ignore")
+            spec = getattr(bp, name)(t, **kw).to_dict(validate=True)
+    except Exception as ex:  # noqa: BLE001
+        return {"raised": f"{type(ex).__name__}: {ex}"[:300]}
+    ms = kw.get("metric_spec")
+    want = len(t.slices) * (len(ms) if isinstance(ms, list) else 1)
+    if "vega-lite" not in spec.get("$schema", ""):
+        return {"detail": "not a Vega-Lite specification", "schema": spec.get("$schema")}
+    if n_charts(spec) != want:
+        return {"detail": f"{n_charts(spec)} charts for {len(t.slices)} slice(s) x {want // len(t.slices)} metric(s)"}
+    return None
+
+
+def vega_monitor(ctx):
+    """NOT a decision procedure (Altair / Vega-Lite are outside the model): every plot function is called with its
+    default and with each non-default keyword option at boundary values on 1-3-slice triangles; each call must
+    return a chart that validates against the Vega-Lite schema with one chart per slice and metric."""
+    plan = []
+    pure_ok = {"plot_right_edge", "plot_data_completeness", "plot_heatmap", "plot_atas", "plot_growth_curve",
+               "plot_ballistic", "plot_broom", "plot_histogram"}
+    for ns in (1, 2, 3):
+        for mixed in (True, False):
+            t = plot_triangle(ns, mixed)
+            for name, opts in plot_options(ns).items():
+                for kw in opts:
+                    full = (ns == 2 and mixed) or not ctx.quick
+                    boundary = name == "plot_growth_curve" and ("n_lines" in kw or kw.get("uncertainty_type") in ("ribbon", "segments"))
+                    if not (full or boundary or (mixed and kw == {})):
+                        continue
+                    if not mixed and (name not in pure_ok or kw.get("hide_samples")):
+                        continue      # all-sample triangles: hide_samples leaves nothing to plot
+                    plan.append((ns, mixed, t, name, kw))
+    res, unsupported = {}, {}
+    for ns, mixed, t, name, kw in plan:
+        r = plot_call(t, name, kw)
+        key = f"{name}({json.dumps(kw, sort_keys=True)})/{ns}-slice/{'mixed' if mixed else 'samples'}"
+        ctx.count(evaluations=1)
+        if name in UNSUPPORTED_AT_BASELINE:
+            unsupported[key] = "ok" if r is None else r
+            ctx.hist("monitor:unsupported-at-baseline-" + ("ok" if r is None else "raises"))
+            continue
+        res[key] = "ok" if r is None else r
+        ctx.hist("monitor:" + ("ok" if r is None else "FAIL"))
+        if r is not None:
+            ctx.violation("impl-violation",
+                          f"{name}(**{kw}) on a {ns}-slice {'observed+predicted' if mixed else 'all-sample'} triangle "
+                          f"({N_SAMPLES} samples) does not give a valid Vega-Lite spec with one chart per slice: {r}",
+                          {"plot_call": {"method": name, "kwargs": kw, "n_slices": ns, "mixed": mixed,
+                                         "n_samples": N_SAMPLES}, "triangle": tri_spec(t), "failure": r},
+                          found_input=True)
+    ctx.extra["vega_lite_monitor"] = {"calls": len(res), "failed": {k: v for k, v in res.items() if v != "ok"},
+                                      "unsupported_at_baseline": unsupported}
+    ctx.log(f"Vega-Lite monitor: {len(res)} plot calls, {sum(1 for v in res.values() if v != 'ok')} failing; "
+            f"{len(unsupported)} baseline-unsupported probes")
+
+
+def hardening_cases():
+    """directed streams for the input families of notes/HARDENING.md (A, B, D, F, G, I, J; C = calendar_cases,
+    E = zeros in the generator, H / K / L = hardening_checks and the plot battery)"""
+    import pandas as pd
+
+    from bermuda import Cell, CumulativeCell, Metadata, Triangle
+
+    def yr(y, lag, vals, m=None, cls=CumulativeCell):
+        return cls(period_start=D(y, 1, 1), period_end=D(y, 12, 31), evaluation_date=D(y + lag, 12, 31), values=vals, metadata=m)
+
+    def std(k, lag):
+        return {"paid_loss": 100.0 * k * (lag + 1), "reported_loss": 150 * k * (lag + 2), "earned_premium": 1000 + k}
+
+    out = []
+    # A: ONE slice whose equal Metadata is spelt two ways (key order, 7 vs 7.0, True vs 1, 1000 vs 1000.0), next to a
+    #    genuinely different slice: rows (and age-to-age neighbours) must not split
+    m1 = Metadata(country="US", per_occurrence_limit=1000, details={"n": 7, "flag": True, "lob": "auto"}, loss_details={"a": 1, "b": 2})
+    m2 = Metadata(country="US", per_occurrence_limit=1000.0, details={"lob": "auto", "flag": 1, "n": 7.0}, loss_details={"b": 2, "a": 1})
+    m3 = Metadata(country="DE", details={"n": 7, "flag": True, "lob": "auto"})
+    out.append((Triangle([yr(y, lag, std(k, lag), (m1 if (lag + y) % 2 else m2) if k < 3 else m3)
+                          for y in (2019, 2020) for lag in (0, 1, 2) for k in (1, 3)]), {"family": "A"}, "hardening/A-spellings"))
+    # B: distinct metadata that flatten alike, all with the same periods
+    ms = [Metadata(details={"k": "v"}), Metadata(loss_details={"k": "v"}), Metadata(details={"currency": "USD"}),
+          Metadata(currency="USD"), Metadata(loss_details={"k": "w"})]
+    out.append((Triangle([yr(2020, lag, std(i + 1, lag), m) for i, m in enumerate(ms) for lag in (0, 1)]),
+                {"family": "B"}, "hardening/B-flatten-alike"))
+    # D: coordinates given as datetime / Timestamp / datetime subclass with a time of day
+    class MyDT(datetime.datetime):
+        pass
+
+    out.append((Triangle([CumulativeCell(period_start=datetime.datetime(2020, 1, 1, 13, 5), period_end=pd.Timestamp("2020-12-31 23:59:59"),
+                                         evaluation_date=MyDT(2020 + lag, 12, 31, 7, 0), values=std(1, lag)) for lag in (0, 1)]),
+                {"family": "D"}, "hardening/D-datetime-coordinates"))
+    # F: one cell; a field present only at later evaluations / missing in the first cell; an all-None field
+    out.append((Triangle([yr(2020, 0, {"paid_loss": 5, "earned_premium": 10})]), {"family": "F"}, "hardening/F-one-cell"))
+    out.append((Triangle([yr(2020, 0, {"earned_premium": 100, "incurred_loss": None}), yr(2020, 1, {"earned_premium": 100, "paid_loss": 7, "incurred_loss": None}),
+                          yr(2020, 2, {"paid_loss": 9.5, "reported_loss": 11, "earned_premium": 100, "incurred_loss": None}),
+                          yr(2021, 0, {"paid_loss": np.array([1.0, 2.0, 4.0]), "earned_premium": 50}), yr(2021, 1, {"paid_loss": 6, "earned_premium": 50})]),
+                {"family": "F"}, "hardening/F-late-fields"))
+    # G: NumPy scalars, size-1 arrays, int32 / int16 sample arrays, strided arrays
+    out.append((Triangle([yr(2020, 0, {"paid_loss": np.int64(40), "reported_loss": np.float64(60.5), "earned_premium": np.int64(2**40)}),
+                          yr(2020, 1, {"paid_loss": np.array([50]), "reported_loss": np.array([70.25]), "earned_premium": np.int64(2**40)})]),
+                {"family": "G"}, "hardening/G-numpy-scalars"))
+    base = np.arange(1, 13)
+    out.append((Triangle([yr(2020, 0, {"paid_loss": base[::3].astype(np.int32), "reported_loss": base[::-3].astype(np.int16), "earned_premium": 100}),
+                          yr(2020, 1, {"paid_loss": (2.0 * base)[1::3], "reported_loss": np.asfortranarray(base[:4] * 3.0), "earned_premium": 100})]),
+                {"family": "G"}, "hardening/G-array-types"))
+    # I: restated cells (same coordinates, other values); only fields without a row-neighbour metric
+    with warnings.catch_warnings():
+        warnings.simplefilter("ignore")
+        out.append((Triangle([yr(2020, 0, {"incurred_loss": 5, "earned_premium": 100}), yr(2020, 0, {"incurred_loss": 6, "earned_premium": 100}),
+                              yr(2020, 1, {"incurred_loss": 8, "earned_premium": 100})]), {"family": "I"}, "hardening/I-restated"))
+    # J: semi-monthly periods inside one month, periods sharing a start / an end, nested periods
+    ps = [(D(2020, 1, 1), D(2020, 1, 15)), (D(2020, 1, 16), D(2020, 1, 31)), (D(2020, 1, 1), D(2020, 1, 31)),
+          (D(2020, 1, 1), D(2020, 12, 31)), (D(2019, 7, 1), D(2020, 1, 31))]
+    out.append((Triangle([CumulativeCell(period_start=a, period_end=b, evaluation_date=e, values=std(i + 1, k))
+                          for i, (a, b) in enumerate(ps) for k, e in enumerate((D(2020, 12, 31), D(2021, 1, 31), D(2021, 3, 31)))]),
+                {"family": "J"}, "hardening/J-period-layouts"))
+    return out
+
+
+def rec_canon(x):
+    """strict canonical form of build_plot_data results"""
+    if isinstance(x, dict):
+        return ("dict", tuple((k, rec_canon(v)) for k, v in x.items()))
+    if isinstance(x, (list, tuple)):
+        return (type(x).__name__, tuple(rec_canon(v) for v in x))
+    if isinstance(x, np.ndarray):
+        return ("arr", str(x.dtype), x.tobytes().hex())
+    if isinstance(x, (float, np.floating)):
+        return ("f", float(x).hex())
+    return (type(x).__name__, repr(x))
+
+
+def hardening_checks(ctx):
+    """H (same call twice, caller edits a result), K (argument spellings and non-default options of build_plot_data),
+    L (refusals both ways), E (seed=0)"""
+    import bermuda.plot as bp
+    from bermuda import Triangle
+
+    fails = []
+    t = plot_triangle(2, True)
+    with warnings.catch_warnings():
+        warnings.simplefilter("ignore")
+        base = bp.build_plot_data(t)
+        want = rec_canon(base)
+        # K: positional vs keyword, defaults spelt out
+        for label, thunk in (("positional defaults", lambda: bp.build_plot_data(t, None, True, False, False)),
+                             ("keyword defaults", lambda: bp.build_plot_data(triangle=t, metric_dict=None, remove_empties=True, flat=False, keep_samples=False)),
+                             ("explicit COMMON_METRIC_DICT", lambda: bp.build_plot_data(t, bp.COMMON_METRIC_DICT)),
+                             ("same call again", lambda: bp.build_plot_data(t)),
+                             ("equal triangle built again", lambda: bp.build_plot_data(Triangle(list(reversed(t.cells)))))):
             try:
-                with warnings.catch_warnings():
-                    warnings.simplefilter("ignore")
-                    spec = getattr(t, name)().to_dict()
-                n = len(spec["concat"]) if "concat" in spec else (len(spec.get("hconcat", spec.get("vconcat", [0]))))
-                res[key] = {"charts": n, "slices": len(t.slices), "schema": spec.get("$schema", "")[-30:]}
-                ok = "$schema" in spec and n >= len(t.slices) and n % len(t.slices) == 0
-                ctx.hist("monitor:" + ("ok" if ok else "mismatch"))
-                if not ok:
-                    ctx.violation("impl-violation", f"{name} on a {label} triangle: {n} charts for {len(t.slices)} slices "
-                                  "(Vega-Lite monitor)", {"triangle": tri_spec(t), "method": name, "charts": n},
-                                  found_input=True)
+                if rec_canon(thunk()) != want:
+                    fails.append((f"build_plot_data: {label}", "records differ from the default call", None))
             except Exception as ex:  # noqa: BLE001
-                res[key] = {"raised": f"{type(ex).__name__}: {ex}"[:200]}
-                ctx.hist("monitor:raised")
-    ctx.extra["vega_lite_monitor"] = res
+                fails.append((f"build_plot_data: {label}", f"raised {type(ex).__name__}: {ex}"[:200], None))
+        # K: non-default options
+        try:
+            full = bp.build_plot_data(t, remove_empties=False)
+            names = [bp._to_snake_case(n) for n in bp.COMMON_METRIC_DICT]
+            for r0, r1 in zip(base, full):
+                if [k for k in r1 if k in names] != names or any((r1[k] != {}) != (k in r0) for k in names) \
+                        or any(rec_canon(r1[k]) != rec_canon(r0[k]) for k in names if k in r0):
+                    fails.append(("build_plot_data(remove_empties=False)", "absent metrics must be {} and present ones unchanged", None))
+                    break
+            flat = bp.build_plot_data(t, flat=True)
+            for r0, r2 in zip(base, flat):
+                exp = {}
+                for k, v in r0.items():
+                    if isinstance(v, dict):
+                        exp.update({f"{k}_{a}": b for a, b in v.items()})
+                    else:
+                        exp[k] = v
+                if rec_canon(r2) != rec_canon(exp):
+                    fails.append(("build_plot_data(flat=True)", "not the flattened default record", None))
+                    break
+            keep = bp.build_plot_data(t, keep_samples=True)
+            for c, r0, r3 in zip(t.cells, base, keep):
+                v = c.values["paid_loss"]
+                m = r3["paid_loss"]["metric"]
+                if isinstance(v, np.ndarray) and (not isinstance(m, dict) or list(m.keys()) != list(range(len(v))) or list(m.values()) != v.tolist()):
+                    fails.append(("build_plot_data(keep_samples=True)", "metric must hold the samples in order", None))
+                    break
+                if any(r3["paid_loss"][k] != r0["paid_loss"][k] for k in ("mean", "median", "q2_5", "q97_5", "min", "max")):
+                    fails.append(("build_plot_data(keep_samples=True)", "statistics changed", None))
+                    break
+        except Exception as ex:  # noqa: BLE001
+            fails.append(("build_plot_data non-default options", f"raised {type(ex).__name__}: {ex}"[:200], None))
+        # E: seed=0 is a seed (spaghetti lines drawn reproducibly), and differs from another seed's draw
+        kw = {"uncertainty_type": "spaghetti", "n_lines": N_SAMPLES - 2}
+        tp = plot_triangle(1, False)
+        try:
+            a = bp.plot_growth_curve(tp, seed=0, **kw).to_dict(validate=True)
+            b = bp.plot_growth_curve(tp, seed=0, **kw).to_dict(validate=True)
+            c = bp.plot_growth_curve(tp, **kw, seed=12345).to_dict(validate=True)
+            if json.dumps(a, sort_keys=True, default=str) != json.dumps(b, sort_keys=True, default=str):
+                fails.append(("plot_growth_curve(seed=0) twice", "charts differ: seed 0 is not honoured",
+                              {"method": "plot_growth_curve", "kwargs": dict(kw, seed=0), "n_slices": 1, "mixed": False}))
+            ctx.hist("hardening:seed0-vs-other-" + ("differs" if json.dumps(a, sort_keys=True, default=str) != json.dumps(c, sort_keys=True, default=str) else "same"))
+        except Exception as ex:  # noqa: BLE001
+            fails.append(("plot_growth_curve(seed=0)", f"raised {type(ex).__name__}: {ex}"[:200], None))
+        # L: refusals both ways
+        refusals = [("n_lines = num_samples + 1", lambda: bp.plot_growth_curve(tp, uncertainty_type="spaghetti", n_lines=N_SAMPLES + 1), ValueError),
+                    ("unknown metric name", lambda: bp.plot_heatmap(t, metric_spec="No Such Metric"), ValueError),
+                    ("unknown metric name in a list", lambda: bp.plot_growth_curve(t, metric_spec=["Paid Loss", "Nope"]), ValueError),
+                    ("non-string metric reference", lambda: bp.plot_atas(t, metric_spec=[3]), ValueError)]
+        for label, thunk, exc in refusals:
+            try:
+                thunk().to_dict()
+                fails.append((f"refusal: {label}", "accepted", None))
+            except exc:
+                pass
+            except Exception as ex:  # noqa: BLE001
+                fails.append((f"refusal: {label}", f"raised {type(ex).__name__} instead of {exc.__name__}", None))
+    ctx.count(evaluations=5 + 3 + 3 + 4)
+    ctx.hist("hardening:K/E/L checks", 15)
+    for label, why, pc in fails[:5]:
+        data = {"triangle": tri_spec(t), "hardening_check": label, "failure": why}
+        if pc:
+            data["plot_call"] = dict(pc, n_samples=N_SAMPLES)
+        ctx.violation("impl-violation", f"plot data / plot option check fails: {label}: {why}", data, found_input=True)
+    # H: a caller edits a returned record; a fresh equal triangle must still get correct records
+    cache_probe(ctx)
+    return fails
+
+
+def cache_probe(ctx, spec=None):
+    """build_plot_data is cached: the cached value must not be shared mutable state"""
+    import bermuda.plot as bp
+    from bermuda import CumulativeCell, Triangle
+
+    def mk():
+        return Triangle([CumulativeCell(period_start=D(2031, 1, 1), period_end=D(2031, 12, 31), evaluation_date=D(2031 + k, 12, 31),
+                                        values={"paid_loss": 17 * (k + 1), "earned_premium": 1234}) for k in (0, 1)])
+
+    t = mk()
+    with warnings.catch_warnings():
+        warnings.simplefilter("ignore")
+        r1 = bp.build_plot_data(t)
+        before = rec_canon(r1)
+        keep = (r1[0]["dev_lag"], r1[0]["paid_loss"]["mean"])
+        r1[0]["dev_lag"] = 999
+        r1[0]["paid_loss"]["mean"] = -1
+        r2 = bp.build_plot_data(mk())
+        bad = rec_canon(r2) != before
+        if bad:      # leave the cache as we found it
+            r2[0]["dev_lag"], r2[0]["paid_loss"]["mean"] = keep
+    ctx.hist("probe:H-cache-" + ("shared" if bad else "ok"))
+    if bad:
+        ctx.violation("impl-violation", "build_plot_data hands out its cached list: after a caller edited record 0 "
+                      "(dev_lag=999, paid_loss mean=-1) the next call on an equal triangle returns the edited record",
+                      {"triangle": tri_spec(t), "cache_probe": True}, found_input=True,
+                      finding_class={"kind": "build_plot_data_cache_shares_mutable_result"})
+    return bad
 
 
 # ------------------------------------------------------------------------------ run
@@ -478,7 +778,9 @@ def run(ctx):
         "dev_lag is taken from cell.dev_lag() (date arithmetic is C12); tooltip / unit / last_lag / resolution entries "
         "of the records are not modelled",
         "NOT DECIDED: sd is compared numerically with np.std only; validity of Vega-Lite specifications and 'one facet "
-        "per slice' are behaviour of Altair -- only monitored (a few plot_*().to_dict() calls, charts counted)",
+        "per slice' are behaviour of Altair -- only monitored: every plot function with its default and each non-default "
+        "option at boundary values (n_lines = num_samples, num_samples-1, 1; every uncertainty_type) on 1-3-slice "
+        "observed+predicted and all-sample triangles, to_dict(validate=True), charts counted",
     ]
     from harness.coqterm import canon_tri
 
@@ -522,7 +824,7 @@ def run(ctx):
         ctx.coqc(ctx.build / "GenPlot.v", timeout=300)
     ctx.log("proof files done; generating cases")
     # 3. cases + direct oracle
-    cases = (battery() + calendar_cases(random.Random(ctx.seed * 97 + 2), 34 if ctx.quick else 170)
+    cases = (battery() + calendar_cases(random.Random(ctx.seed * 97 + 2), 48 if ctx.quick else 192) + hardening_cases()
              + gen_cases(ctx, 110 if ctx.quick else 900))
     fails = []
     for t, info, desc in cases:
@@ -549,10 +851,9 @@ def run(ctx):
         ctx.violation("correspondence", "model and build_plot_data differ on a generated triangle",
                       {"mismatches": mism[:3]}, found_input=False)
     # 5. monitor
-    two = [t for t, _, _ in cases if len(t.slices) == 2 and len(t) >= 4]
-    one = [t for t, _, _ in cases if len(t.slices) == 1 and len(t) >= 4]
-    if one and two:
-        vega_monitor(ctx, one[0], two[0])
+    vega_monitor(ctx)
+    hf = hardening_checks(ctx)
+    ctx.log(f"hardening checks (K/E/L/H): {len(hf)} failures")
 
 
 def shrink(t):
@@ -587,6 +888,22 @@ def shrink(t):
 
 
 def replay(ctx, data):
+    if data.get("cache_probe"):
+        class _C:
+            def hist(self, *a, **k): pass
+            def violation(self, *a, **k): print("cached records are shared mutable state:", a[1][:200])
+        return 1 if cache_probe(_C()) else 0
+    pc = data.get("plot_call")
+    if pc:
+        t = plot_triangle(pc["n_slices"], pc["mixed"], pc.get("n_samples", N_SAMPLES))
+        print(f"bermuda.plot.{pc['method']}(triangle, **{pc['kwargs']}) on a {len(t.slices)}-slice triangle with "
+              f"{t.num_samples} samples ({len(t)} cells)")
+        r = plot_call(t, pc["method"], pc["kwargs"])
+        if r is None:
+            print("valid Vega-Lite specification with one chart per slice: OK")
+            return 0
+        print("NOT a valid spec with one chart per slice:", json.dumps(r, default=str)[:800])
+        return 1
     spec = data.get("triangle")
     if not spec:
         print("replay data holds no triangle:", json.dumps(data, default=str)[:2000])
